@@ -1,5 +1,5 @@
 check("C13", "model_checking",
-      "TLC enumerates SyltExpr's universes (all depth-2 operator/unary/postfix shapes over distinct leaf names, all 13^3 unparenthesised "
+      "TLC enumerates SyltExpr's universes (all depth-2 operator/unary/postfix shapes over distinct leaf names, the depth-3 shapes around postfix forms (a unary operator over a call / index / field access whose base is a composite, parenthesised expression, alone and as either operand of every binary operator; postfix chains on composite bases), all 13^3 unparenthesised "
       "three-operator chains, all depth-2 well-typed int/bool trees with their values), checks at spec level that the printing rules and the "
       "operator table agree with a reference precedence-climbing parser, and every case is replayed: the real parser's public tree (spans and "
       "parenthesis nodes dropped) for the minimal-parenthesis and the fully parenthesised text must equal the specified tree; typed cases are "
